@@ -45,6 +45,7 @@ class Check(PropertyCheck):
     theorems = ["C09_waiting_has_waker_partial", "C09_holder_is_running", "C09_no_stuck_waiting",
                 "C09_refuted_without_recheck", "C09_witness_fixed",
                 "C09_no_lost_event", "C09_quiescent_all_settled", "C09_quiescent_nonvacuous",
+                "C09_event_lowers_potential", "C09_events_bounded", "C09_events_bounded_nonvacuous",
                 "C09_tree_steps_bounded", "C09_tree_step_decreases", "C09_tree_quiescent_settled", "C09_tree_nonvacuous",
                 "C09_fail_fast_leaves_unsettled_refuted"]
     theorem_modules = ["Props.C09Tree"]      # closed-program termination on the tree machine
@@ -52,7 +53,7 @@ class Check(PropertyCheck):
     assumptions = [
         "every task function terminates and the workflow is finite (premise of the property; the open model leaves the creation of jobs to the schedule)",
         "no job demands more of a resource than its limit (feas_op premise)",
-        "NOT proved for the open machine: a termination measure (the closed tree machine has one, Props/C09Tree.v); proved instead: no event is ever lost and a quiescent state has every job ended",
+        "the open machine leaves job creation to the schedule: C09_events_bounded bounds the events processed by (7+N)*N for N jobs created; that a program creates finitely many jobs is the closed tree machine's theorem (Props/C09Tree.v)",
     ]
     rule = ("random feasible programs (twins, failures, catch, limits on 2 resources) on the real Scheduler with a "
             "controlled executor; the oracle flags queue-empty + nothing-running + workflow-pending; non-trivial = >= 3 jobs")
